@@ -50,9 +50,10 @@ def tcodes():
     return _TC
 
 
-def lines(blob, api, cfg, color):
+def lines(blob, api, cfg, color, filter_tid=None):
     p = PyKdebugParser()
     p.color = color
+    p.filter_tid = filter_tid
     for k, v in zip(SW, cfg):
         setattr(p, k, v)
     if api == 'formatted_logs':
@@ -179,7 +180,16 @@ def judge_process(m, seq):
             if any(g.startswith(c) for c in cands):
                 return ('process-column-width', {'line': g})
             return ('process-column-not-the-declared-process', {'line': g, 'allowed': cands})
-    # event listing (no decoding): static thread-map attribution
+    # listing restricted to one thread: its lines name the same process as in the unrestricted listing (the point of the stream at
+    # which a line is formatted does not move with the filter)
+    for ft in (1, 2, 3):
+        want = [g for g, (tid, _) in zip(got, mod) if tid == ft]
+        try:
+            sub = lines(blob, 'formatted_traces', [False, False, False, False, True, False], False, filter_tid=ft)
+        except Exception as ex:
+            return ('formatting-raised:' + type(ex).__name__, {'error': repr(ex)[:200], 'filter_tid': ft})
+        if sub != want:
+            return ('process-column-of-a-thread-listing-differs-from-the-full-listing', {'filter_tid': ft, 'got': sub[:6], 'expected': want[:6]})
     tp = {t: p for t, p, _ in MAPS[m]}
     pn = {p: nm for _, p, nm in MAPS[m]}
     ev_lines = lines(blob, 'formatted_kevents', [False, False, False, False, True, False], False)
@@ -334,7 +344,7 @@ class C14(Check):
     rule = ('all 2^6 column-switch settings x colour {off,on} x all record streams of <=2 (quick) / <=3 (thorough) items over 9 kinds '
             '(syscalls on a declared and an undeclared thread, NEWTHREAD data/string, EXEC data/string, terminate-pid, sampler '
             'thread-data, unrelated record) x thread maps {empty, 1 entry, 2 entries, 3 entries whose tids collide with other entries\' pids, pids 2^31 and 2^32-1}, through formatted_kevents and '
-            'formatted_traces (+ one callstack dump through formatted_callstacks, one v3 log dump through formatted_logs); plus one 5-item group repeated N = 2^k-1, 2^k, 2^k+1 times (k = 5..11): every group after the first is formatted identically; plus the command-line tool\'s --show-tid / --color switches against the library; plus dump '
+            'formatted_traces, the trace listing also restricted to each of threads 1..3 (equal to that thread s lines of the full listing) (+ one callstack dump through formatted_callstacks, one v3 log dump through formatted_logs); plus one 5-item group repeated N = 2^k-1, 2^k, 2^k+1 times (k = 5..11): every group after the first is formatted identically; plus the command-line tool\'s --show-tid / --color switches against the library; plus dump '
             'SEQUENCES: one parser object formats a first dump (1 item quick / <=2 thorough, any map) and then a second (<=2 items, '
             'any map) - the second dump\'s lines must equal a fresh object\'s, also when the first dump was truncated and formatting it raised. '
             'Oracle: line(config) == concatenation in fixed order of the single-column renderings; ANSI-stripped coloured line == '
